@@ -50,6 +50,7 @@ type JobResult struct {
 	Solver     string            `json:"solver"`
 	SolverErr  []string          `json:"solver_errors,omitempty"`
 	Observes   []ObsOut          `json:"observes,omitempty"`
+	Dropped    []string          `json:"dropped_harness_files,omitempty"`
 	Pending    int               `json:"pending_go"`
 }
 
@@ -141,30 +142,63 @@ func moduleDir(mod string) string {
 	return d
 }
 
+// droppedHarness: harness files that do not compile against the current tree (a
+// refactoring changed a signature they use) -> first compile error. Their harnesses are
+// reported as unavailable; every other harness still runs.
+var droppedHarness = map[string]string{}
+
 func loadProgram() (*ssa.Program, map[string]*ssa.Package) {
-	cfg := &packages.Config{
-		Mode: packages.NeedName | packages.NeedFiles | packages.NeedCompiledGoFiles | packages.NeedImports |
-			packages.NeedDeps | packages.NeedTypes | packages.NeedSyntax | packages.NeedTypesInfo | packages.NeedTypesSizes | packages.NeedModule,
-		Dir:     repoDir,
-		Env:     append(os.Environ(), "GOFLAGS=-mod=mod", "GOPROXY=off", "GOSUMDB=off", "GOTOOLCHAIN=local"),
-		Overlay: overlay(),
-	}
-	pkgs, err := packages.Load(cfg, "./...", "github.com/weedbox/pokertable/internal/verifrt")
-	if err != nil {
-		fmt.Fprintln(os.Stderr, "load:", err)
-		os.Exit(2)
-	}
-	bad := false
-	packages.Visit(pkgs, nil, func(p *packages.Package) {
-		for _, e := range p.Errors {
-			if strings.HasPrefix(p.PkgPath, "github.com/weedbox/pokertable") {
+	ov := overlay()
+	var pkgs []*packages.Package
+	for round := 0; ; round++ {
+		cfg := &packages.Config{
+			Mode: packages.NeedName | packages.NeedFiles | packages.NeedCompiledGoFiles | packages.NeedImports |
+				packages.NeedDeps | packages.NeedTypes | packages.NeedSyntax | packages.NeedTypesInfo | packages.NeedTypesSizes | packages.NeedModule,
+			Dir:     repoDir,
+			Env:     append(os.Environ(), "GOFLAGS=-mod=mod", "GOPROXY=off", "GOSUMDB=off", "GOTOOLCHAIN=local"),
+			Overlay: ov,
+		}
+		var err error
+		pkgs, err = packages.Load(cfg, "./...", "github.com/weedbox/pokertable/internal/verifrt")
+		if err != nil {
+			fmt.Fprintln(os.Stderr, "load:", err)
+			os.Exit(2)
+		}
+		bad := false
+		drop := map[string]string{}
+		packages.Visit(pkgs, nil, func(p *packages.Package) {
+			for _, e := range p.Errors {
+				if !strings.HasPrefix(p.PkgPath, "github.com/weedbox/pokertable") {
+					continue
+				}
+				file := e.Pos
+				if i := strings.Index(file, ":"); i >= 0 {
+					file = file[:i]
+				}
+				if _, isOv := ov[file]; isOv && strings.HasPrefix(filepath.Base(file), "zz_verif_") {
+					if _, seen := drop[file]; !seen {
+						drop[file] = e.Error()
+					}
+					continue
+				}
 				fmt.Fprintln(os.Stderr, "package error:", e)
 				bad = true
 			}
+		})
+		if bad || (len(drop) > 0 && round >= 12) {
+			for f, e := range drop {
+				fmt.Fprintln(os.Stderr, "package error:", f, e)
+			}
+			os.Exit(2)
 		}
-	})
-	if bad {
-		os.Exit(2)
+		if len(drop) == 0 {
+			break
+		}
+		for f, e := range drop {
+			fmt.Fprintf(os.Stderr, "[symgo] harness file %s does not compile against this tree and is dropped: %s\n", filepath.Base(f), e)
+			droppedHarness[f] = e
+			delete(ov, f)
+		}
 	}
 	prog, spkgs := ssautil.AllPackages(pkgs, ssa.InstantiateGenerics)
 	byPath := map[string]*ssa.Package{}
@@ -194,6 +228,10 @@ func allowInit(p *ssa.Package) bool {
 func runJob(prog *ssa.Program, pkgs map[string]*ssa.Package, job Job, solverName string, timeoutMs int, kfOpen map[string]bool, trace bool, smtLog string) (res *JobResult) {
 	start := time.Now()
 	res = &JobResult{Job: job, Status: "ok", Solver: solverName}
+	for f := range droppedHarness {
+		res.Dropped = append(res.Dropped, f)
+	}
+	sort.Strings(res.Dropped)
 	TS = NewTermStore()
 	solver, err := NewSolver(solverName, timeoutMs, smtLog)
 	if err != nil {
@@ -269,6 +307,14 @@ func runJob(prog *ssa.Program, pkgs map[string]*ssa.Package, job Job, solverName
 	}
 	fn := p.Func(job.Harness)
 	if fn == nil {
+		if len(droppedHarness) > 0 {
+			msgs := []string{}
+			for f, e := range droppedHarness {
+				msgs = append(msgs, filepath.Base(f)+": "+e)
+			}
+			sort.Strings(msgs)
+			panic(notEncoded("harness %s unavailable: its file does not compile against this tree (%s)", job.Harness, strings.Join(msgs, "; ")))
+		}
 		panic(notEncoded("harness %s not found in %s", job.Harness, job.Pkg))
 	}
 	m.runInit(p)
